@@ -19,14 +19,15 @@ from xv import monitors
 PROPERTY = 'C17'
 LEVEL = 'exploration'
 RULE = ("directory trees of depth <= 3 built from names {a, b, c, pkg_x, mod_y, _p, test__init__, run__main__, __init__x} where each name becomes a module, a "
-        "regular package, a directory without __init__.py, both a module and a package, a module beside a plain directory of the same name, or a package with __main__.py; for "
+        "regular package, a directory without __init__.py, both a module and a package, a module beside a plain directory of the same name, a compiled extension module (alone, or beside a source module of the same name), or a package with __main__.py; for "
         "every dotted name derivable from the tree (files, directories, intermediate names) plus absent names the "
         "resolution is compared with FileFinder; found paths go through modpath_to_modname, split_modpath and "
         "import_module_from_path.  Non-trivial = the name has at least two parts or names a directory; distinct by "
         "(tree listing, name) hash")
 ASSUMPTIONS = [
-    "PEP 420 namespace packages count as 'not found' (xdoctest documents no PEP 420 support); extension-module suffixes "
-    "and .pyc-only modules are not generated",
+    "PEP 420 namespace packages count as 'not found' (xdoctest documents no PEP 420 support); .pyc-only modules are "
+    "not generated; extension modules are empty files carrying one of the interpreter's EXTENSION_SUFFIXES (located, "
+    "never loaded); an extension module beside a source module of the same name is finding F19",
     "modname_to_modpath is called with hide_init=False so that a package resolves to its __init__.py, which is what "
     "spec.origin names",
     "top-level names carry a per-tree suffix so that sys.modules never aliases two trees",
@@ -38,7 +39,7 @@ NAMES = ['a', 'b', 'c', 'pkg_x', 'mod_y', '_p', 'test__init__', 'run__main__', '
 def required_cells(tier):
     return ['resolve:found-module', 'resolve:found-package', 'resolve:absent', 'resolve:broken-chain',
             'resolve:module-and-package', 'roundtrip', 'split', 'import', 'resolve:main-file',
-            'import:failing-leaves-syspath', 'resolve:module-beside-plain-directory', 'import:root-already-on-syspath']
+            'import:failing-leaves-syspath', 'resolve:module-beside-plain-directory', 'import:root-already-on-syspath', 'resolve:extension-module']
 
 
 def build(rng, root, uniq):
@@ -48,7 +49,17 @@ def build(rng, root, uniq):
         names = rng.sample(NAMES, rng.randint(1, 3))
         for n in names:
             n2 = n if depth > 0 else '%s_%s' % (n, uniq)
-            kind = rng.choice(['mod', 'pkg', 'nsdir', 'both', 'pkg_main', 'modraise', 'mod_nsdir'])
+            kind = rng.choice(['mod', 'pkg', 'nsdir', 'both', 'pkg_main', 'modraise', 'mod_nsdir', 'ext', 'ext_and_py'])
+            if kind in ('ext', 'ext_and_py'):
+                # a compiled extension module (an empty file with one of the interpreter's own suffixes: it is
+                # only ever located, never loaded)
+                with open(os.path.join(d, n2 + rng.choice(M.EXTENSION_SUFFIXES)), 'w') as f:
+                    f.write('')
+                if kind == 'ext_and_py':
+                    with open(os.path.join(d, n2 + '.py'), 'w') as f:
+                        f.write('NAME = %r\n' % n2)
+                feats.add(kind)
+                continue
             if kind == 'modraise':
                 with open(os.path.join(d, n2 + '.py'), 'w') as f:
                     f.write('raise RuntimeError("XV_IMPORT_FAILS")\n')
@@ -77,7 +88,7 @@ def build(rng, root, uniq):
 
 def oracle(root, modname):
     """what the interpreter would import from `root`: regular packages only, part by part"""
-    loaders = [(M.SourceFileLoader, ['.py'])]
+    loaders = [(M.ExtensionFileLoader, M.EXTENSION_SUFFIXES), (M.SourceFileLoader, ['.py'])]
     parts = modname.split('.')
     path = root
     spec = None
@@ -101,6 +112,10 @@ def all_names(root):
         for f in fn:
             if f.endswith('.py') and f != '__init__.py':
                 out.add('.'.join(base + [f[:-3]]))
+            for suf in M.EXTENSION_SUFFIXES:
+                if f.endswith(suf):
+                    out.add('.'.join(base + [f[:-len(suf)]]))
+                    break
         for d in dn:
             out.add('.'.join(base + [d]))
     absent = set()
@@ -137,7 +152,10 @@ def check_tree(ctx, idx, seed):
             if (got and os.path.realpath(got)) != (exp and os.path.realpath(exp)):
                 ctx.violation('resolve', 'modname_to_modpath(%r, sys_path=[root]) -> %r but the import system would load %r '
                               '(%s); tree %r' % (name, got and os.path.relpath(got, root), exp and os.path.relpath(exp, root),
-                                                 cls, listing), case, observed=got, expected=exp)
+                                                 cls, listing), case, observed=got, expected=exp,
+                              source_beside_extension=bool(got and exp and exp.endswith(tuple(M.EXTENSION_SUFFIXES)) and
+                                                           got.endswith('.py') and
+                                                           os.path.dirname(got) == os.path.dirname(exp)))
                 continue
             ctx.cell('resolve:' + cls)
             parts = name.split('.')
@@ -163,6 +181,9 @@ def check_tree(ctx, idx, seed):
                               'joined they must give the path back; tree %r' % (got, dpath, rel, root, listing), case)
                 continue
             ctx.cell('split')
+            if got.endswith(tuple(M.EXTENSION_SUFFIXES)):
+                ctx.cell('resolve:extension-module')
+                continue        # located only: the file is empty
             # ---- import by path
             if parts[-1] == '__main__':
                 continue
@@ -234,12 +255,16 @@ def replay(case, ctx):
 
 
 def classify(v):
+    # F19 by mechanism: an extension module and a source module of the same name in one directory; the
+    # interpreter loads the extension, xdoctest names the source file
+    if v.get('mechanism') == 'resolve' and v.get('source_beside_extension') is True:
+        return 'source-preferred-over-extension'
     return None
 
 
 LEVEL_TEXT = ("Exploration by differential monitoring: for every name of hundreds/thousands of generated trees the resolution "
               "is compared with CPython's own FileFinder applied part by part; found paths are converted back, split and "
               "imported, with a sys.path snapshot around the import.")
-LEVEL_NOTE = ("Trusted: importlib.machinery.FileFinder + SourceFileLoader as the import system's behaviour for regular "
+LEVEL_NOTE = ("Trusted: importlib.machinery.FileFinder + ExtensionFileLoader / SourceFileLoader as the import system's behaviour for regular "
               "packages and source modules; namespace packages are deliberately 'not found'.")
 TECHNIQUE = "runtime monitor: differential oracle against importlib FileFinder over generated directory trees; round-trip and sys.path before/after checks"
